@@ -266,6 +266,9 @@ def run(ctx):
     if not q:
         export_and_replay(ctx, "simnd", dict(big, Vlog="FALSE", Drain="FALSE"), [[], ["--vlog"]], sim=n, depth=30)
     ckpt_race(ctx)
+    # the copies of a checkpoint are one cut (spec/ckpt/CheckpointCut.tla; the pinned "steps" variant as teeth)
+    from checks import _ckptcut
+    _ckptcut.checkpoint_cut(ctx)
     ctx.cov["exhaustive"] = True
     ctx.cov["rule"] = ("every transition TLC explores in the bounded Checkpoint model (hist hidden by VIEW) is exported as "
                        "a scenario and executed on a real Tree under each option set; scenarios that are prefixes of "
